@@ -6,6 +6,7 @@ import (
 	storetypes "cosmossdk.io/store/types"
 	"encoding/json"
 	"fmt"
+	"sort"
 
 	sdkmath "cosmossdk.io/math"
 
@@ -231,7 +232,23 @@ func (c *caseT) op() {
 func (c *caseT) genesis() {
 	r := c.r
 	g := tunnelkeeper.ExportGenesis(c.ctx, c.app.TunnelKeeper)
-	variant := r.Intn(8)
+	// the store lists deposits by depositor ADDRESS, and the test accounts are drawn afresh in every process: bring the list
+	// into an order that depends on the case only (tunnel, account number) before records are picked by position
+	whoOf := func(d tunneltypes.Deposit) int {
+		for i, ac := range c.accts {
+			if ac.Address.String() == d.Depositor {
+				return i
+			}
+		}
+		return 99
+	}
+	sort.SliceStable(g.Deposits, func(i, j int) bool {
+		if g.Deposits[i].TunnelID != g.Deposits[j].TunnelID {
+			return g.Deposits[i].TunnelID < g.Deposits[j].TunnelID
+		}
+		return whoOf(g.Deposits[i]) < whoOf(g.Deposits[j])
+	})
+	variant := r.Intn(10)
 	if len(g.Tunnels) == 0 {
 		variant = 0
 	}
@@ -269,6 +286,29 @@ func (c *caseT) genesis() {
 	case 7: // the same tunnel twice
 		g.Tunnels = append(g.Tunnels, g.Tunnels[pickT()])
 		g.TunnelCount++
+	case 8, 9: // one depositor's record split in two (the sums still match): at the end of the list (8) or next to it (9)
+		if len(g.Deposits) > 0 {
+			k := r.Intn(len(g.Deposits))
+			d := g.Deposits[k]
+			var half, rest sdk.Coins
+			for _, c := range d.Amount {
+				h := c.Amount.QuoRaw(2)
+				if h.IsPositive() {
+					half = half.Add(sdk.NewCoin(c.Denom, h))
+				}
+				rest = rest.Add(sdk.NewCoin(c.Denom, c.Amount.Sub(h)))
+			}
+			if !half.IsZero() {
+				g.Deposits[k].Amount = rest
+				d2 := d
+				d2.Amount = half
+				if variant == 8 {
+					g.Deposits = append(g.Deposits, d2)
+				} else {
+					g.Deposits = append(g.Deposits[:k+1], append([]tunneltypes.Deposit{d2}, g.Deposits[k+1:]...)...)
+				}
+			}
+		}
 	case 5: // a record for a tunnel that does not exist
 		if len(g.Deposits) > 0 {
 			d := g.Deposits[r.Intn(len(g.Deposits))]
